@@ -25,6 +25,7 @@ type c04Sub struct {
 	done     bool
 	boundOK  bool
 	detail   string
+	sentHour int64
 }
 
 func runC04(c *harness.Ctx) {
@@ -68,10 +69,16 @@ func runC04(c *harness.Ctx) {
 		blobs = append(blobs, b)
 		return b
 	}
+	// lateOff/lateDelay: the connection is accepted now, the client crafts and
+	// sends its handshake only lateDelay later, stamped lateOff hours off the
+	// clock of that moment (set by the "slow" operation below, else zero)
+	var lateDelay time.Duration
+	var lateOff int64
 	submit := func(b *c04Blob) *c04Sub {
 		nSub++
 		n := nSub
 		sub := &c04Sub{blob: b}
+		delay, off := lateDelay, lateOff
 		l := c.Net.NewLink(fmt.Sprintf("r%d", n), fmt.Sprintf("s%d", n))
 		l.AB.Policy = t.Draw("chunk", 3) // burst / all / mss; zero latency so processing happens at this instant
 		c.S.Go(fmt.Sprintf("s%d/accept", n), func() {
@@ -82,6 +89,12 @@ func runC04(c *harness.Ctx) {
 		})
 		c.S.Go(fmt.Sprintf("r%d/submit", n), func() {
 			defer func() { sub.done = true }()
+			if b == nil {
+				c.S.Sleep(delay)
+				b = newBlob(off)
+				sub.blob = b
+				sub.sentHour = nowHour()
+			}
 			if _, err := l.A.Write(b.bytes); err != nil {
 				sub.detail = "write: " + err.Error()
 				return
@@ -175,12 +188,49 @@ func runC04(c *harness.Ctx) {
 				c.S.Sleep(left + time.Millisecond)
 			}
 		}
-		kind := t.Draw("op", 4)
+		kind := t.Draw("op", 5)
 		if len(blobs) == 0 && (kind == 1) {
+			kind = 0
+		}
+		if kind == 4 && c.S.TimeSkip > 0 {
 			kind = 0
 		}
 		E := nowHour()
 		switch kind {
+		case 4: // slow: accepted shortly before an hour boundary, handshake sent after it
+			pre := []time.Duration{time.Second, 5 * time.Second, 15 * time.Second}[t.Draw("slow.pre", 3)]
+			if t.Draw("slow.cross", 4) != 0 {
+				left := time.Hour - time.Duration(time.Now().UnixNano()%int64(time.Hour))
+				if left > pre {
+					c.S.Sleep(left - pre)
+				} else {
+					c.S.Sleep(left + time.Hour - pre)
+				}
+			}
+			lateDelay = pre + []time.Duration{time.Second, 3 * time.Second, 9 * time.Second}[t.Draw("slow.more", 3)]
+			lateOff = int64(t.Draw("hoff", 7)) - 3
+			if t.Draw("hoff.in", 2) == 0 {
+				lateOff = int64(t.Draw("hoff.w", 3)) - 1
+			}
+			acceptHour := nowHour()
+			sub := submit(nil)
+			delay := lateDelay
+			lateDelay, lateOff = 0, 0
+			c.S.Run(func() bool { return sub.done }, delay+settle)
+			if sub.blob == nil {
+				c.Violate("C04/submission-stuck", "op %d slow: the client task never ran", op)
+				break
+			}
+			b := sub.blob
+			what := fmt.Sprintf("op %d slow(accepted at server hour %d, handshake sent %v later at server hour %d, stamped %+d)", op, acceptHour, delay, sub.sentHour, b.hour-sub.sentHour)
+			check(sub, sub.sentHour, inWindow(b.hour, sub.sentHour), what)
+			if sub.accepted {
+				b.accepted++
+			}
+			hist = append(hist, fmt.Sprintf("+%v slow%+d(%v)=%v", gap, b.hour-sub.sentHour, delay, sub.accepted))
+			if acceptHour != sub.sentHour {
+				c.Feature("handshake-sent-in-the-hour-after-accept")
+			}
 		case 0: // fresh
 			off := int64(t.Draw("hoff", 7)) - 3
 			if t.Draw("hoff.in", 2) == 0 {
